@@ -216,6 +216,24 @@ async fn run_scenario(sc: &Value, seed: u64) -> Vec<Value> {
         }));
     }
 
+    // optional: a side closes one of its channels (stream reset) as soon as it has received k messages on it,
+    // while the peer may still be sending on that channel
+    for c in sc["close_mid"].as_array().cloned().unwrap_or_default() {
+        let side = c["side"].as_str().unwrap_or("A").chars().next().unwrap();
+        let sid = c["sid"].as_u64().unwrap_or(0) as u16;
+        let after = c["after_recv"].as_u64().unwrap_or(1) as usize;
+        let sctp = pair.ep(side).sctp.clone();
+        let st = status(&map, side, sid);
+        app_tasks.push(tokio::spawn(async move {
+            while st.recvd.load(Ordering::SeqCst) < after {
+                sleep_ms(1).await;
+            }
+            verif::emit("app", inst(side), "close_call", json!({"sid": sid}));
+            let r = sctp.close_data_channel(sid).await;
+            verif::emit("app", inst(side), "close_done", json!({"sid": sid, "ok": r.is_ok()}));
+        }));
+    }
+
     // sender tasks: messages of one (side, task, phase) are submitted sequentially by one task
     let phases: Vec<u64> = {
         let mut p: Vec<u64> = msgs.iter().map(|m| m.phase).collect();
